@@ -449,4 +449,62 @@ theorem run_inv {t : Table} (hwf : WF t) (ops : List Op) : Inv t (run t ops) := 
   unfold run
   rw [h]; exact hinv
 
+
+/-! ## shape of the normalised arguments -/
+
+theorem normArgs_shape {t : Table} {env : Option String} {kw : RawKwargs} {a : Args}
+    (h : normArgs t env kw = .ok a) :
+    ∃ ic, getIsColor t env (bindArgs t kw "is_color") = .ok ic ∧
+      (bindArgs t kw "violation_type" = .none ∨ validKind .excType (bindArgs t kw "violation_type") = true) ∧
+      validArgs t (defaulted t (upd (bindArgs t kw) "is_color" ic)) = true ∧
+      towerStep (defaulted t (upd (bindArgs t kw) "is_color" ic)) = .ok a := by
+  simp only [normArgs] at h
+  cases hic : getIsColor t env (bindArgs t kw "is_color") with
+  | error r => simp [hic] at h
+  | ok ic =>
+    simp only [hic] at h
+    refine ⟨ic, rfl, ?_⟩
+    have hup : upd (bindArgs t kw) "is_color" ic "violation_type" = bindArgs t kw "violation_type" := by
+      simp [upd]
+    by_cases hbad : bindArgs t kw "violation_type" ≠ .none ∧
+        validKind .excType (bindArgs t kw "violation_type") = false
+    · simp [defaultStep, hup, hbad] at h
+    · rw [defaultStep, hup, if_neg hbad] at h
+      simp only at h
+      by_cases hv : validArgs t (defaulted t (upd (bindArgs t kw) "is_color" ic)) = true
+      · rw [if_pos hv] at h
+        refine ⟨?_, hv, h⟩
+        by_cases e : bindArgs t kw "violation_type" = .none
+        · exact Or.inl e
+        · right
+          cases hk : validKind .excType (bindArgs t kw "violation_type") with
+          | true => rfl
+          | false => exact absurd ⟨e, hk⟩ hbad
+      · rw [if_neg hv] at h
+        simp at h
+
+theorem towerStep_other {a2 a : Args} (h : towerStep a2 = .ok a) {n : String} (hn : n ≠ "hint_overrides") :
+    a n = a2 n := by
+  unfold towerStep at h
+  split at h
+  · split at h
+    · split at h
+      · simp at h
+      · simp only [Except.ok.injEq] at h
+        subst h; simp [upd, hn]
+    · simp only [Except.ok.injEq] at h
+      subst h; rfl
+  · simp only [Except.ok.injEq] at h
+    subst h; rfl
+
+/-- a keyword passed under its own name, its deprecated alias (if any) not passed -/
+theorem bindArgs_passed {t : Table} {kw : RawKwargs} {n : String} {o : Opt} {v : Val}
+    (ho : findOpt t n = some o) (hv : lookupKw kw n = some v)
+    (hal : ∀ old, aliasOf t n = some old → lookupKw kw old = none) : bindArgs t kw n = v := by
+  obtain ⟨_, hon⟩ := findOpt_some ho
+  simp only [bindArgs, ho, aliasArg, rawArg, hon, hv, Option.getD_some]
+  cases h : aliasOf t n with
+  | none => rfl
+  | some old => simp [hal old h]
+
 end BearVerif.Conf
